@@ -175,7 +175,6 @@ Proof. reflexivity. Qed.
 Lemma is_gtx_clear v : is_gtx (if is_gtx v then clear_conf v else v) = is_gtx v.
 Proof. destruct (is_gtx v) eqn:E; [exact E|exact E]. Qed.
 
-Definition sp_q (out : outcome) (x : N) : req := if out_ok out then QCommit x else QRollback x.
 Definition after_begin (w : world) : world :=
   bump_next {| w_nreq := S (w_nreq w); w_next := w_next w; w_script := tl (w_script w);
                w_default := w_default w; w_cancel_after := w_cancel_after w; w_halt := w_halt w |}.
